@@ -230,6 +230,15 @@ impl<'a> CompilerState<'a> {
         self.variables.values().map(|v| v.order + 1).max().unwrap_or(0)
     }
 
+    // Size of an array, from the constant expression between its brackets
+    fn parse_array_size(&self, pairs: Pairs<Rule>, pos: usize) -> Result<usize, Error> {
+        let n = self.parse_calc(pairs)?;
+        if !(0..=0xffff).contains(&n) {
+            return Err(self.syntax_error("Array size out of range", pos));
+        }
+        Ok(n as usize)
+    }
+
     fn collect_labels(
         s: &StatementLoc<'a>,
         labels: &mut Vec<String>,
@@ -1286,7 +1295,7 @@ impl<'a> CompilerState<'a> {
                             Rule::array_spec => {
                                 start = p.as_span().start();
                                 if let Some(px) = p.into_inner().next() {
-                                    size = Some(self.parse_calc(px.into_inner())? as usize);
+                                    size = Some(self.parse_array_size(px.into_inner(), start)?);
                                 }
                                 if var_type == VariableType::Char {
                                     var_type = VariableType::CharPtr;
@@ -1803,7 +1812,7 @@ impl<'a> CompilerState<'a> {
                                     Rule::array_spec => {
                                         start = p.as_span().start();
                                         if let Some(px) = p.into_inner().next() {
-                                            size = Some(self.parse_calc(px.into_inner())? as usize);
+                                            size = Some(self.parse_array_size(px.into_inner(), start)?);
                                         }
                                         if var_type == VariableType::Char {
                                             var_type = VariableType::CharPtr;
@@ -2133,7 +2142,7 @@ impl<'a> CompilerState<'a> {
                                 Rule::array_spec => {
                                     start = pair.as_span().start();
                                     if let Some(px) = pair.into_inner().next() {
-                                        size = Some(self.parse_calc(px.into_inner())? as usize);
+                                        size = Some(self.parse_array_size(px.into_inner(), start)?);
                                     }
                                     if var_type == VariableType::Char {
                                         var_type = VariableType::CharPtr;
